@@ -1154,7 +1154,8 @@ class Fxp():
 
     def _run_callbacks(self, method):
         if self.callbacks:
-            for cb in self.callbacks:
+            # iterate over a copy: a callback may unregister itself (or others) while being notified
+            for cb in list(self.callbacks):
                 if hasattr(cb, method): getattr(cb, method)(self)
 
     # overloadings
